@@ -371,6 +371,33 @@ fn catalogue(w: &World, t: usize) -> Vec<Hostile> {
     v.push(c(ConsensusMessage::TC(tc), "TC with a non-member signer"));
     v.push(c(ConsensusMessage::Propose(w.block(others[0], 2, QC { hash: Digest([5; 32]), round: 1, votes: vec![] }, None, vec![])), "proposal with an empty QC"));
     v.push(c(ConsensusMessage::Propose(w.block(w.ref_leader(2), 2, QC { hash: Digest([5; 32]), round: 1, votes: vec![] }, Some(consensus::TC { round: 1, votes: vec![] }), vec![])), "proposal with an empty QC and an empty TC"));
+    // correctly signed proposals of the legitimate leader (the block digest covers neither the TC nor
+    // the QC's signer list) with absurd certificates spliced in: empty / single-signer / repeated-signer
+    // TCs of past, current and absurd rounds; the same on top of the QC-carrying blocks
+    for (bi, b) in s.blocks.iter().enumerate() {
+        for r in [0u64, 1, 2, 5, u64::MAX] {
+            let tcs: Vec<(consensus::TC, &str)> = vec![
+                (consensus::TC { round: r, votes: vec![] }, "empty"),
+                (w.tc(r, &[(byz, 0)]), "single-signer"),
+                (w.tc(r, &[(byz, 0), (byz, 0), (byz, 0)]), "repeated-signer"),
+                (w.tc(r, &[(byz, u64::MAX)]), "single-signer (claims QC round u64::MAX)"),
+            ];
+            for (tc, d) in tcs {
+                let mut x = b.clone();
+                x.tc = Some(tc);
+                v.push(c(ConsensusMessage::Propose(x), &format!("valid round-{} proposal of its leader with a spliced {} TC of round {}", bi + 1, d, r)));
+            }
+        }
+        if bi > 0 {
+            let mut x = b.clone();
+            x.qc.votes.clear();
+            v.push(c(ConsensusMessage::Propose(x), &format!("valid round-{} proposal of its leader with the QC's signatures removed", bi + 1)));
+            let mut x = b.clone();
+            let first = x.qc.votes[0].clone();
+            x.qc.votes = vec![first.clone(), first.clone(), first];
+            v.push(c(ConsensusMessage::Propose(x), &format!("valid round-{} proposal of its leader with one QC signature repeated three times", bi + 1)));
+        }
+    }
     // huge payload
     v.push(c(ConsensusMessage::Propose(w.block(w.ref_leader(3), 3, QC::genesis(), None, (0..10_000u32).map(|i| { let mut d = [0u8; 32]; d[..4].copy_from_slice(&i.to_le_bytes()); Digest(d) }).collect())), "proposal with 10^4 payload digests"));
     // sync requests: unknown digest, from a non-member, for a MEMPOOL BATCH in the shared store
